@@ -433,6 +433,8 @@ def compare(case, io, mo):
     _F32[0] = case["kind"].endswith("-f32data")
     if case["op"] == "power_comb 0":
         return "diff:implementation failed: " + io[1] if C.is_err(io) else "ok"
+    if C.is_err(io) and isinstance(mo, list) and len(mo) == 2 and all(C.is_err(m) and m[1] == io[1] for m in mo):
+        return "ok"      # both fail in the same way (the model reports the failure for the prediction and for the filter separately)
     e = C.err_compare(io, mo)
     if e and not (C.is_err(io) and C.is_err(mo)) and not (C.is_err(io) and io[1] == "TypeError"):
         if C.is_err(io):
